@@ -124,6 +124,11 @@ MUTANTS = [
     ("C09", "rh-divides", "typhon/physics/atmosphere.py", "    return RH * e_eq(T) / p", "    return RH * p / e_eq(T)"),
     ("C09", "lapse-squared-dropped", "typhon/physics/atmosphere.py", "(1 + (Lv**2 * w_saturated) / (Cp * Rv * T**2))", "(1 + (Lv * w_saturated) / (Cp * Rv * T**2))"),
     ("C09", "zero-temperature-accepted", "typhon/physics/atmosphere.py", "    if np.any(T <= 0):\n        raise ValueError('Temperatures must be larger than 0 Kelvin.')\n\n    # Give the natural log of saturation vapor pressure over ice in Pa", "    if np.any(T < 0):\n        raise ValueError('Temperatures must be larger than 0 Kelvin.')\n\n    # Give the natural log of saturation vapor pressure over ice in Pa"),
+    ("C17", "K-not-transposed", "typhon/retrieval/oem/common.py", "    return inv(K.T @ inv(S_y) @ K + inv(S_a))", "    return inv(K.T @ S_y @ K + inv(S_a))"),
+    ("C17", "prior-not-inverted", "typhon/retrieval/oem/common.py", "    return inv(K.T @ inv(S_y) @ K + inv(S_a))", "    return inv(K.T @ inv(S_y) @ K + S_a)"),
+    ("C17", "avk-KG", "typhon/retrieval/oem/common.py", "    return retrieval_gain_matrix(K, S_a, S_y) @ K", "    return (K @ retrieval_gain_matrix(K, S_a, S_y)) if K.shape[0] == K.shape[1] else retrieval_gain_matrix(K, S_a, S_y) @ K"),
+    ("C17", "gain-missing-Sy", "typhon/retrieval/oem/common.py", "    return inv(inv(S_a) + K.T @ inv(S_y) @ K) @ K.T @ inv(S_y)", "    return inv(inv(S_a) + K.T @ inv(S_y) @ K) @ K.T"),
+    ("C17", "smoothing-sign", "typhon/retrieval/oem/error.py", "    return A @ (x - x_a)", "    return A @ (x_a - x)"),
 ]
 
 
